@@ -116,7 +116,8 @@ func NewIPv4Allocator(start, end net.IP) (*IPv4Allocator, error) {
 	if alloc.start > alloc.end {
 		return nil, errors.New("no IPs in the given range to allocate")
 	}
-	alloc.bitmap = bitset.New(uint(alloc.end - alloc.start + 1))
+	// compute the size as uint: end-start+1 wraps to 0 in uint32 for the full range
+	alloc.bitmap = bitset.New(uint(alloc.end-alloc.start) + 1)
 
 	return &alloc, nil
 }
